@@ -19,5 +19,5 @@ var props = map[string]propConf{
 	"C14": {Level: "exploration", Quick: 3000, Thorough: 1000000, ThoroughS: 1200},
 	"C15": {Level: "exploration", Quick: 2000, Thorough: 100000, ThoroughS: 1500},
 	"C19": {Level: "fault_enumeration", Quick: 3000, Thorough: 200000, ThoroughS: 1500},
-	"C20": {Level: "exploration", Quick: 500, Thorough: 100000, ThoroughS: 1500},
+	"C20": {Level: "exploration", Quick: 2000, Thorough: 100000, ThoroughS: 1500},
 }
